@@ -82,3 +82,50 @@ func (b *BmPrefix) VerifTables() (positive, negativeASCII []int, negativeUnicode
 	}
 	return positive, negativeASCII, negativeUnicode, b.lowASCII, b.highASCII
 }
+
+// VerifDisableReduce, when set, turns RegexNode.reduce into the identity: addChild/ReplaceChild then
+// keep the nodes exactly as the parser built them.
+var VerifDisableReduce bool
+
+func verifReduceOff() bool { return VerifDisableReduce }
+
+// VerifParseRaw is Parse with every tree reduction and rewrite switched off and without the
+// find-optimisation analysis: the tree is what the parser itself builds (scanRegex, the capture
+// pre-scan and the option stack), nothing else. Not safe for concurrent use with Parse.
+func VerifParseRaw(re string, op ParseOptions) (*RegexTree, error) {
+	saveReduce, saveRewrites := VerifDisableReduce, VerifDisableRewrites
+	VerifDisableReduce, VerifDisableRewrites = true, true
+	defer func() { VerifDisableReduce, VerifDisableRewrites = saveReduce, saveRewrites }()
+	p := parser{
+		options:              op.RegexOptions,
+		caps:                 make(map[int]int),
+		maintainCaptureOrder: op.MaintainCaptureOrder || (op.RegexOptions&ECMAScript) != 0,
+	}
+	p.setPattern(re)
+	if err := p.countCaptures(); err != nil {
+		return nil, err
+	}
+	p.reset(op.RegexOptions)
+	root, err := p.scanRegex()
+	if err != nil {
+		return nil, err
+	}
+	return &RegexTree{Root: root, Caps: p.caps, Capnumlist: p.capnumlist, Captop: p.captop,
+		Capnames: p.capnames, Caplist: p.capnamelist, Options: op.RegexOptions}, nil
+}
+
+// VerifReduce applies the reductions Parse would have applied while building the tree to a raw
+// tree (children first, each reduced when it is added to its parent; the root is not reduced),
+// followed by the final optimisation pass.
+func VerifReduce(root *RegexNode) *RegexNode {
+	var walk func(n *RegexNode) *RegexNode
+	walk = func(n *RegexNode) *RegexNode {
+		kids := n.Children
+		n.Children = nil
+		for _, k := range kids {
+			n.addChild(walk(k))
+		}
+		return n
+	}
+	return walk(root).finalOptimize()
+}
